@@ -184,6 +184,7 @@ CHECKS["C07"] = dict(
         ob("VH_C07_receiver", dict(SHAPE=0, MAXB=0, LN=1), covers=["requested", "not-requested", "done"], bounds="plain transfer whose source may hold a root-level regular file named .fsutil-metadata"),
         ob("VH_C07_receiver", dict(SHAPE=1, MAXB=1, LAT=1), covers=["requested", "not-requested", "done"], bounds="source {d, d/f}; second deterministic schedule: the receiver's SendMsg returns after the peer reacted (DATA can overtake the return of the REQ call)"),
         ob("VH_C07_receiver", dict(SHAPE=1, MAXB=1, MT=1), covers=["requested", "not-requested", "done"], bounds="source {d, d/f} with mtimes from {1.25 s before the epoch, the last nanosecond of a second}"),
+        ob("VH_C07_many", dict(N=320), covers=["done"], bounds="a concrete listing of 320 one-byte files announced completely before any content is delivered (more entries than the receiver's internal queues hold)", max_steps=60000000),
         ob("VH_C07_receiver", dict(SHAPE=2, MAXB=2), T, covers=["requested", "not-requested", "done"], bounds="source {d, d/f, e} incl. hard link, files <=2 bytes", max_paths=2000000),
         ob("VH_C07_receiver", dict(SHAPE=2, MAXB=1, LAT=1), T, covers=["requested", "not-requested", "done"], bounds="source {d, d/f, e} incl. hard link under the latency schedule", max_paths=2000000),
         ob("VH_C07_receiver", dict(SHAPE=1, MAXB=3), T, covers=["requested", "not-requested", "done"], bounds="source {d, d/f}, files <=3 bytes, every chunking"),
@@ -344,17 +345,19 @@ CHECKS["C04"] = dict(
 )
 
 CHECKS["C08"] = dict(
-    level_text="Bounded schedule exploration of one fixed transfer (real Send over a synthetic view read in one-byte fragments, real Receive on the model file system with a dirty prior destination): which goroutine runs next is a solver-chosen value before every channel operation, select, lock/unlock, WaitGroup operation, close and go statement, and whenever the running goroutine blocks, within a delay bound around two base schedules (oldest-runnable-first and youngest-runnable-first). On every schedule inside the bound the solver-driven search shows: both calls succeed, the destination equals the source view, the set of content requests and the set of change notifications with their digests are the expected ones, neither end ever has two SendMsg or two RecvMsg calls in flight on its stream, nothing deadlocks and no goroutine is left behind.",
-    level_note="PARTIAL. Bounds: one concrete scenario (d/, d/f = 2 bytes, e = 1 byte, 4 further directories; prior destination with an older e and a stale entry), stream buffer capacity 0 and 1, delay bound 1 (quick) / 2 (thorough) per base schedule. Outside the claim: data races (the executor interleaves goroutines only at the visible operations listed and has no memory-access race detector, so 'no execution contains a data race' is NOT decided), schedules needing more delays than the bound, larger capacities, many multi-chunk files in flight, GOMAXPROCS (parallelism is abstracted as interleaving at visible operations). A schedule-dependent counterexample cannot be replayed deterministically on the real scheduler: the check replays it up to 150 times natively with seeded random pauses inside the harness transport and reports it only if one repetition fails or hangs; otherwise the result is inconclusive (exit 2). " + FS_TRUST + BASE_TRUST,
-    assumptions=["interleaving only at visible operations (channel, select, mutex, WaitGroup, close, go) - sufficient for outcomes only if the code is free of data races, which is not checked",
+    level_text="Bounded schedule exploration of one fixed transfer (real Send over a synthetic view read in one-byte fragments, real Receive on the model file system with a dirty prior destination): which goroutine runs next is a solver-chosen value before every channel operation, select, lock/unlock, WaitGroup operation, close and go statement, and whenever the running goroutine blocks, within a delay bound around two base schedules (oldest-runnable-first and youngest-runnable-first). On every schedule inside the bound the solver-driven search shows: both calls succeed, the destination equals the source view, the set of content requests and the set of change notifications with their digests are the expected ones, neither end ever has two SendMsg or two RecvMsg calls in flight on its stream, nothing deadlocks, no goroutine is left behind, and no two accesses of the library's own code to the same variable, struct field, slice element or map (at least one a write) are unordered by happens-before (vector-clock race detection over channel, close, mutex, WaitGroup, atomic, Once, Pool and go edges).",
+    level_note="PARTIAL. Bounds: one concrete scenario (d/, d/f = 2 bytes, e = 1 byte, 4 further directories; prior destination with an older e and a stale entry), stream buffer capacity 0 and 1, delay bound 1 (quick) / 2 (thorough) per base schedule. Outside the claim: races involving memory accessed only inside the standard library or dependencies on the library's behalf (the happens-before detector watches loads, stores, map operations of fsutil's own functions; e.g. a payload buffer read inside io.Pipe is not watched), races on schedules outside the bound whose accesses never both execute, schedules needing more delays than the bound, larger capacities, many multi-chunk files in flight, GOMAXPROCS (parallelism is abstracted as interleaving at visible operations). A schedule-dependent counterexample cannot be replayed deterministically on the real scheduler: the check replays it up to 150 times natively with seeded random pauses inside the harness transport and reports it only if one repetition fails or hangs (a reported data race: only if the Go race detector, go test -race, flags a race in one of the repetitions); otherwise the result is inconclusive (exit 2). " + FS_TRUST + BASE_TRUST,
+    assumptions=["interleaving only at visible operations (channel, select, mutex, WaitGroup, close, go) - sufficient for outcomes when the code is free of data races, which the happens-before detector checks for the library's own accesses on the explored schedules",
                  "delay-bounded search: every schedule reachable with at most d deviations from one of two deterministic base schedules; all others are outside the claim"],
     obligations=[
-        ob("VH_C08_schedules", dict(SCHED=1, SCHEDREV=0, FILES=2, CAP=1, NDIRS=4), Q, covers=["done"], bounds="delay bound 1 around the oldest-first base schedule, stream capacity 1"),
-        ob("VH_C08_schedules", dict(SCHED=1, SCHEDREV=1, FILES=2, CAP=1, NDIRS=4), Q, covers=["done"], bounds="delay bound 1 around the youngest-first base schedule, stream capacity 1"),
-        ob("VH_C08_schedules", dict(SCHED=1, SCHEDREV=1, FILES=2, CAP=0, NDIRS=4), Q, covers=["done"], bounds="delay bound 1 around the youngest-first base schedule, unbuffered stream"),
-        ob("VH_C08_schedules", dict(SCHED=1, SCHEDREV=0, FILES=3, CAP=0, NDIRS=2), Q, covers=["done"], bounds="delay bound 1, three files, unbuffered stream"),
-        ob("VH_C08_schedules", dict(SCHED=2, SCHEDREV=0, FILES=2, CAP=1, NDIRS=2), T, covers=["done"], bounds="delay bound 2 around the oldest-first base schedule", max_paths=2000000),
-        ob("VH_C08_schedules", dict(SCHED=2, SCHEDREV=1, FILES=2, CAP=1, NDIRS=2), T, covers=["done"], bounds="delay bound 2 around the youngest-first base schedule", max_paths=2000000),
+        ob("VH_C08_schedules", dict(SCHED=1, SCHEDREV=0, FILES=2, CAP=1, NDIRS=4, RACE=1, EMPTY=1), Q, covers=["done"], bounds="delay bound 1 around the oldest-first base schedule, stream capacity 1"),
+        ob("VH_C08_schedules", dict(SCHED=1, SCHEDREV=1, FILES=2, CAP=1, NDIRS=4, RACE=1, EMPTY=1), Q, covers=["done"], bounds="delay bound 1 around the youngest-first base schedule, stream capacity 1"),
+        ob("VH_C08_schedules", dict(SCHED=1, SCHEDREV=1, FILES=2, CAP=0, NDIRS=4, RACE=1), Q, covers=["done"], bounds="delay bound 1 around the youngest-first base schedule, unbuffered stream"),
+        ob("VH_C08_schedules", dict(SCHED=1, SCHEDREV=0, FILES=3, CAP=0, NDIRS=2, RACE=1, EMPTY=1), Q, covers=["done"], bounds="delay bound 1, three files, unbuffered stream"),
+        ob("VH_C08_schedules", dict(SCHED=1, SCHEDREV=0, FILES=2, CAP=1, NDIRS=4, RACE=1, FAULT=1), Q, covers=["done"], bounds="the walk fails at the last entry (error report while content may be in flight), delay bound 1, oldest-first"),
+        ob("VH_C08_schedules", dict(SCHED=1, SCHEDREV=1, FILES=2, CAP=1, NDIRS=4, RACE=1, FAULT=1), Q, covers=["done"], bounds="failing walk, delay bound 1, youngest-first"),
+        ob("VH_C08_schedules", dict(SCHED=2, SCHEDREV=0, FILES=2, CAP=1, NDIRS=2, RACE=1, EMPTY=1), T, covers=["done"], bounds="delay bound 2 around the oldest-first base schedule", max_paths=2000000),
+        ob("VH_C08_schedules", dict(SCHED=2, SCHEDREV=1, FILES=2, CAP=1, NDIRS=2, RACE=1, EMPTY=1), T, covers=["done"], bounds="delay bound 2 around the youngest-first base schedule", max_paths=2000000),
     ],
 )
 
